@@ -363,4 +363,29 @@ theorem recv_messages (gr gs : Cfg) (er es : Env) (hkeys : ∀ i, (es.keyAt i).l
     · simp only [wireOf, hws]
       rw [hrun1, hrun2, List.append_assoc]
 
+/-- the application's `WriteMessage` calls as the model driver runs them (`appWrite`, one per `W`/`X` op), from state `k` -/
+def appWrites (g : Cfg) (e : Env) : K → List (Nat × Bytes) → Bytes
+  | _, [] => []
+  | k, (op, x) :: ms =>
+    match (appWrite g e k op x).2 with
+    | .ok ws => ws.flatten ++ appWrites g e (appWrite g e k op x).1 ms
+    | .error _ => appWrites g e (appWrite g e k op x).1 ms
+
+/-- bridge: on a live conn the driver's `appWrite` sequence writes exactly `wireOf` -/
+theorem appWrites_eq_wireOf (g : Cfg) (e : Env) : ∀ (ms : List (Nat × Bytes)) (k : K), k.connClosed = false →
+    appWrites g e k ms = wireOf g e k.nwrites ms := by
+  intro ms
+  induction ms with
+  | nil => intro k _; rfl
+  | cons m ms ih =>
+    intro k hk
+    obtain ⟨op, x⟩ := m
+    unfold appWrites wireOf
+    unfold appWrite
+    cases hw : writeMessage g e k.nwrites op x with
+    | error er => simp only; exact ih k hk
+    | ok ws =>
+      simp only [hk, Bool.false_eq_true, if_false]
+      rw [ih _ (by simpa using hk)]
+
 end Ws
